@@ -1,4 +1,121 @@
+/-
+C16 — property theorems (statements fixed by the architect; do not weaken).
+Helper lemmas: PeroVerif/Lemmas/Confidence.lean.
+-/
+import Mathlib.Algebra.Order.Field.Basic
+import Mathlib.Analysis.SpecialFunctions.Log.Basic
 import PeroVerif.Model.Confidence
+import PeroVerif.Lemmas.Confidence
+
 namespace C16
-theorem placeholder : (1:Nat) = 1 := rfl
+open Conf
+
+section Field
+variable {R : Type} [Field R] [LinearOrder R] [IsStrictOrderedRing R]
+
+def COps.of (R : Type) [Field R] [LinearOrder R] : COps R :=
+  { zero := 0, one := 1, add := (· + ·), mul := (· * ·), lt := fun a b => decide (a < b),
+    div := (· / ·), sub := (· - ·) }
+
+/-- posteriors: every frame has `C` entries in [0,1] (summing to 1: not even needed for the ranges) -/
+def Probs (C : ℕ) (probs : List (List R)) : Prop :=
+  ∀ row ∈ probs, row.length = C ∧ ∀ x ∈ row, 0 ≤ x ∧ x ≤ 1
+
+/-- Per-character confidences are probabilities. -/
+theorem lineConfidence_range (C : ℕ) (probs : List (List R)) (labels alignment : List ℕ) (cs : List R)
+    (hp : Probs C probs) (h : getLineConfidence (COps.of R) probs labels alignment = some cs) :
+    cs.length = labels.length ∧ ∀ c ∈ cs, 0 ≤ c ∧ c ≤ 1 := by
+  exact Conf.lineConfidence_rangeL (C := C) hp h
+
+/-- The computation is defined (no NumPy error: every window is non-empty) whenever the alignment is
+strictly increasing inside the matrix — which C05 proves for `align_text` — and there are ≥ 2 classes. -/
+theorem lineConfidence_defined (C : ℕ) (hC : 2 ≤ C) (probs : List (List R)) (labels alignment : List ℕ)
+    (hp : Probs C probs) (hl : labels.length = alignment.length) (hlab : ∀ l ∈ labels, l < C)
+    (hal : alignment.Pairwise (· < ·)) (hT : ∀ a ∈ alignment, a < probs.length) :
+    ∃ cs, lineConfidence (COps.of R) probs labels alignment = some cs := by
+  exact Conf.lineConfidence_definedL hC hp hl hlab hal hT
+
+/-- One label: if the aligned frame gives the label probability 1 and, inside the label's window,
+all mass of the other (non-blank, non-neighbour) symbols is 0 — as for one-hot posteriors — the
+confidence is exactly 1. -/
+theorem labelConfidence_onehot (C : ℕ) (probs : List (List R)) (labels al : List ℕ) (i lastBorder : ℕ)
+    (c : R) (nb : ℕ) (hp : Probs C probs)
+    (h : labelConfidence (COps.of R) probs labels al i lastBorder = some (c, nb))
+    (hlab : ∀ row, probs[al.getD i 0]? = some row → row[labels.getD i 0]? = some 1)
+    (hoth : ∀ row ∈ (probs.drop lastBorder).take (nb - lastBorder), ∀ j, j + 1 < C →
+        j ≠ labels.getD i 0 → (i > 0 → j ≠ labels.getD (i - 1) 0) →
+        (i + 1 < labels.length → j ≠ labels.getD (i + 1) 0) → row[j]? = some 0) :
+    c = 1 := by
+  exact Conf.labelConfidence_onehotL (C := C) hp h hlab hoth
+
+/-- Transformer lines: the confidence is the posterior of the label in its own frame. -/
+theorem transformer_range (C : ℕ) (probs : List (List R)) (labels : List ℕ) (cs : List R)
+    (hp : Probs C probs) (h : lineConfidenceTransformer probs labels = some cs) :
+    ∀ c ∈ cs, 0 ≤ c ∧ c ≤ 1 := by
+  exact (Conf.transformer_rangeL (C := C) hp h).2
+
+/-- `get_letter_confidence` (exponentiated) and `compute_line_confidence` are probabilities. -/
+theorem letterConfidence_range (C : ℕ) (probs : List (List R)) (alignment : List ℕ) (blank : ℕ)
+    (cs : List R) (hp : Probs C probs)
+    (h : letterConfidence (COps.of R) probs alignment blank = some cs) :
+    ∀ c ∈ cs, 0 ≤ c ∧ c ≤ 1 := by
+  exact Conf.letterConfidence_rangeL (C := C) hp h
+
+theorem getProb_range (best : List (ℕ × R)) (h : ∀ b ∈ best, 0 ≤ b.2 ∧ b.2 ≤ 1) :
+    0 ≤ getProb (COps.of R) best ∧ getProb (COps.of R) best ≤ 1 := by
+  exact Conf.getProb_rangeL best h
+
+/-- The confident-line test is monotone in its threshold. -/
+theorem confident_monotone (probs : List (List R)) (t₁ t₂ : R) (ht : t₁ ≤ t₂)
+    (h : lineConfidentEnough (COps.of R) probs t₂ = some true) :
+    lineConfidentEnough (COps.of R) probs t₁ = some true := by
+  exact Conf.confident_monotoneL probs t₁ t₂ ht h
+
+/-- Line / word confidence = median (`np.quantile(·, .5)`) of values in [0,1] is in [0,1]. -/
+theorem median_range (xs : List R) (m : R) (hx : ∀ x ∈ xs, 0 ≤ x ∧ x ≤ 1)
+    (h : median (COps.of R) 2 xs = some m) : 0 ≤ m ∧ m ≤ 1 := by
+  exact Conf.median_rangeL xs m hx h
+
+theorem median_defined (xs : List R) (hne : xs ≠ []) : ∃ m, median (COps.of R) 2 xs = some m := by
+  exact Conf.median_definedL xs hne
+
+end Field
+
+section Real
+open Real
+
+/-- `logsumexp` of one frame -/
+noncomputable def lse (x : List ℝ) : ℝ := Real.log (x.map Real.exp).sum
+
+/-- `log_softmax` of one frame: `x - logaddexp.reduce(x)` -/
+noncomputable def logSoftmax (x : List ℝ) : List ℝ := x.map fun a => a - lse x
+
+/-- Row-normalised: the posteriors `exp(log_softmax x)` of a frame sum to 1 … -/
+theorem exp_logSoftmax_sum_one (x : List ℝ) (hne : x ≠ []) :
+    ((logSoftmax x).map Real.exp).sum = 1 := by
+  unfold logSoftmax lse
+  exact Conf.sum_exp_sub_log x hne
+
+/-- … lie in (0, 1] … -/
+theorem exp_logSoftmax_range (x : List ℝ) (hne : x ≠ []) :
+    ∀ p ∈ (logSoftmax x).map Real.exp, 0 < p ∧ p ≤ 1 := by
+  intro p hp
+  have _ := hne
+  unfold logSoftmax lse at hp
+  rw [List.map_map] at hp
+  obtain ⟨a, ha, rfl⟩ := List.mem_map.1 hp
+  exact Conf.exp_sub_log_range x ha
+
+/-- … and do not change when a constant is added to all logits of the frame. -/
+theorem logSoftmax_shift (x : List ℝ) (c : ℝ) (hne : x ≠ []) :
+    logSoftmax (x.map (· + c)) = logSoftmax x := by
+  unfold logSoftmax lse
+  rw [Conf.log_sum_exp_shift x c hne, List.map_map]
+  apply List.map_congr_left
+  intro a _
+  simp only [Function.comp_apply]
+  ring
+
+end Real
+
 end C16
